@@ -134,7 +134,7 @@ PROPS = {
         "shrink_budget": 3,
     },
     "C03": {
-        "lean_modules": ["Props.Facts03", "Props.Gen03m", "Props.GenT03m"],
+        "lean_modules": ["Props.Facts03", "Props.Gen03m", "Props.GenT03m", "Props.Gen03", "Props.GenT03"],
         "groups": [{"name": "C03", "quick": 1200, "thorough": 40000, "workers": 8},
                    # the same worlds and sequences in processes whose cache holds 1, 2, 3 and 5 entries: eviction and re-fetch
                    {"name": "C03", "quick": 96, "thorough": 3000, "workers": 2, "config": "[network]\ncache_size = 1\n"},
